@@ -15,16 +15,18 @@ ARCHIVES = [[Archive(10, 100)], [Archive(60, 1440), Archive(300, 2000)], [Archiv
 AGGS = [(0.5, 'sum'), (None, 'max'), (0.0, None)]
 
 
-def _schema(name, archives, bit):
+def _schema(name, archives, bits):
   s = PatternSchema(name, 'x', archives)
-  s.test = lambda metric: bit                 # abstracts the regex; `matches` stays real
+  s.test = lambda metric: bits[metric]        # abstracts the regex (one symbolic bit per metric); `matches` stays real
   return s
 
 
-def _first_match(cmod, ns, na, smatch, amatch):
-  schemas = [_schema('s%d' % i, ARCHIVES[i], ((smatch >> i) & 1) == 1) for i in range(ns)] + [defaultSchema]
-  aggs = [_schema('a%d' % i, AGGS[i], ((amatch >> i) & 1) == 1) for i in range(na)] + [defaultAggregation]
-  cache = K.build(cmod, 3, [True, False, False, False], [5, 0, 0, 0], 0)
+def _first_match(cmod, ns, na, smatch, amatch, smatch_b, amatch_b, two):
+  bits_s = [{'a': ((smatch >> i) & 1) == 1, 'b': ((smatch_b >> i) & 1) == 1} for i in range(3)]
+  bits_a = [{'a': ((amatch >> i) & 1) == 1, 'b': ((amatch_b >> i) & 1) == 1} for i in range(3)]
+  schemas = [_schema('s%d' % i, ARCHIVES[i], bits_s[i]) for i in range(ns)] + [defaultSchema]
+  aggs = [_schema('a%d' % i, AGGS[i], bits_a[i]) for i in range(na)] + [defaultAggregation]
+  cache = K.build(cmod, 3, [True, False, two, False], [5, 0, 6, 0], 0)      # one or two NEW metrics in the same pass
   db = W.RecordingDB()
   W.install(cache, db, None, None, schemas=schemas, agg=aggs)
   try:
@@ -32,39 +34,44 @@ def _first_match(cmod, ns, na, smatch, amatch):
   finally:
     W.restore()
   creates = [c for c in db.calls if c[0] == 'create']
-  if len(creates) != 1 or creates[0][1] != 'a':
-    raise AssertionError('expected exactly one create for the new metric: %r' % (creates,))
-  retentions, xff, method = creates[0][2]
-  want_ret = [(60, 10080)]                     # documented default: 1 minute for 7 days
-  for i in range(ns):
-    if (smatch >> i) & 1:
-      want_ret = [a.getTuple() for a in ARCHIVES[i]]
-      cover('schema_matched')
-      break
-  want_agg = (None, None)
-  for i in range(na):
-    if (amatch >> i) & 1:
-      want_agg = AGGS[i]
-      break
-  if retentions != want_ret:
-    raise AssertionError('created with retentions %r, first matching schema says %r' % (retentions, want_ret))
-  if (xff, method) != want_agg:
-    raise AssertionError('created with (xff, method) %r, first matching aggregation section says %r' % ((xff, method), want_agg))
+  metrics = ['a', 'b'] if two else ['a']
+  if sorted(c[1] for c in creates) != metrics:
+    raise AssertionError('expected exactly one create per new metric: %r' % ([c[1] for c in creates],))
+  for c in creates:
+    metric = c[1]
+    sm, am = (smatch, amatch) if metric == 'a' else (smatch_b, amatch_b)
+    retentions, xff, method = c[2]
+    want_ret = [(60, 10080)]                   # documented default: 1 minute for 7 days
+    for i in range(ns):
+      if (sm >> i) & 1:
+        want_ret = [x.getTuple() for x in ARCHIVES[i]]
+        cover('schema_matched')
+        break
+    want_agg = (None, None)
+    for i in range(na):
+      if (am >> i) & 1:
+        want_agg = AGGS[i]
+        break
+    if retentions != want_ret:
+      raise AssertionError('%s created with retentions %r, first matching schema says %r' % (metric, retentions, want_ret))
+    if (xff, method) != want_agg:
+      raise AssertionError('%s created with (xff, method) %r, first matching aggregation section says %r' % (metric, (xff, method), want_agg))
   cover('created')
   return True
 
 
-def C19_first_match(ns: int, na: int, smatch: int, amatch: int) -> bool:
+def C19_first_match(ns: int, na: int, smatch: int, amatch: int, smatch_b: int, amatch_b: int, two: bool) -> bool:
   """
   pre: 0 <= ns <= 3 and 0 <= na <= 3
-  pre: 0 <= smatch < 8 and 0 <= amatch < 8
+  pre: 0 <= smatch < 8 and 0 <= amatch < 8 and 0 <= smatch_b < 8 and 0 <= amatch_b < 8
+  pre: two or (smatch_b == 0 and amatch_b == 0)
   post: __return__
   """
-  return _first_match(K.SHADOW, ns, na, smatch, amatch)
+  return _first_match(K.SHADOW, ns, na, smatch, amatch, smatch_b, amatch_b, two)
 
 
-def replay_first_match(ns, na, smatch, amatch):
-  return _first_match(K.real_cache, ns, na, smatch, amatch)
+def replay_first_match(ns, na, smatch, amatch, smatch_b, amatch_b, two):
+  return _first_match(K.real_cache, ns, na, smatch, amatch, smatch_b, amatch_b, two)
 
 
 # ---- retention strings ---------------------------------------------------------------------------------------
@@ -200,12 +207,58 @@ def C19_load_aggregation(a: int, b: int, c: int) -> bool:
   return True
 
 
+PERMS = [(0, 1, 2), (0, 2, 1), (1, 0, 2), (1, 2, 0), (2, 0, 1), (2, 1, 0)]
+_PFILES = {}
+
+
+def _gen_perm_files():
+  for pi, perm in enumerate(PERMS):
+    sp = os.path.join(_DIR, 'perm-schemas-%d.conf' % pi)
+    with open(sp, 'w') as fh:
+      fh.write(''.join(_ssec(i, 'full_a' if i != 1 else 'full_b') for i in perm))
+    ap = os.path.join(_DIR, 'perm-aggregation-%d.conf' % pi)
+    with open(ap, 'w') as fh:
+      fh.write(''.join(_asec(i, 'both').replace('agg_%d' % i, 'sec_%d' % i) for i in perm))
+    _PFILES[pi] = (sp, ap)
+
+
+_gen_perm_files()
+
+
+def C19_reload(p1: int, p2: int, p3: int) -> bool:
+  """
+  pre: 0 <= p1 < len(PERMS) and 0 <= p2 < len(PERMS) and 0 <= p3 < len(PERMS)
+  post: __return__
+  """
+  # the same section names in different orders, in the schema file, the aggregation file and a re-written
+  # schema file loaded afterwards (the writer reloads every 60 s): each load follows ITS file's order
+  old = storage.STORAGE_SCHEMAS_CONFIG, storage.STORAGE_AGGREGATION_CONFIG
+  try:
+    storage.STORAGE_SCHEMAS_CONFIG = _PFILES[pick(list(range(len(PERMS))), p1)][0]
+    first = storage.loadStorageSchemas()
+    storage.STORAGE_AGGREGATION_CONFIG = _PFILES[pick(list(range(len(PERMS))), p2)][1]
+    agg = storage.loadAggregationSchemas()
+    storage.STORAGE_SCHEMAS_CONFIG = _PFILES[pick(list(range(len(PERMS))), p3)][0]
+    again = storage.loadStorageSchemas()
+  finally:
+    storage.STORAGE_SCHEMAS_CONFIG, storage.STORAGE_AGGREGATION_CONFIG = old
+  cover('loaded')
+  return ([s.name for s in first[:-1]] == ['sec_%d' % i for i in PERMS[p1]]
+          and [s.name for s in agg[:-1]] == ['sec_%d' % i for i in PERMS[p2]]
+          and [s.name for s in again[:-1]] == ['sec_%d' % i for i in PERMS[p3]])
+
+
 HARNESSES = [
-  H('C19_first_match', quick=dict(timeout=280, shards=[('ns%d' % k, 'ns == %d' % k) for k in range(4)]), covers=['schema_matched', 'created'],
+  H('C19_reload', quick=dict(timeout=280, shards=[('p%d' % k, 'p1 == %d' % k) for k in range(len(PERMS))]), covers=['loaded'],
+    encodes=['carbon.storage:loadStorageSchemas', 'carbon.storage:loadAggregationSchemas', 'carbon.conf:OrderedConfigParser (state across instances / reloads)'],
+    assumptions=['three loads in one process: schema file, aggregation file, re-written schema file; the same three section names in symbolic orders (6 permutations each)']),
+  H('C19_first_match', quick=dict(timeout=280, shards=[('ns%d_%s' % (k, t), 'ns == %d and %s' % (k, 'two and na <= 1' if t == 'two' else 'not two')) for k in range(4) for t in ('one', 'two')]),
+    thorough=dict(timeout=900, shards=[('ns%d_na%d_%s' % (k, a, t), 'ns == %d and na == %d and %s' % (k, a, 'two' if t == 'two' else 'not two')) for k in range(4) for a in range(4) for t in ('one', 'two')]),
+    covers=['schema_matched', 'created'],
     replay='replay_first_match', twin_pre=['ns == 2'],
     encodes=['carbon.writer:writeCachedDataPoints (create loop)', 'carbon.storage:Schema.matches', 'carbon.storage:defaultSchema / defaultAggregation'],
     assumptions=['0-3 real PatternSchema objects per list whose `test` returns a symbolic bit (abstracts `re`), real default schemas appended; '
-                 'real carbon.writer module with a recording backend; one new metric']),
+                 'real carbon.writer module with a recording backend; one or two new metrics created in the same pass (independent match bits per metric)']),
   H('C19_retention', quick=dict(timeout=280, shards=[('pu%d' % k, 'pu == %d' % k) for k in range(len(UNITS))], extra_pre=['pn % 2 == 1 or qn % 2 == 1']),
     thorough=dict(timeout=900, shards=[('pu%d' % k, 'pu == %d' % k) for k in range(len(UNITS))]),
     covers=['rejected', 'parsed'], twin_pre=['pu == 1'],
